@@ -60,6 +60,9 @@ def make (c):
         if rng.random () < 0.25:
             spec ['geo'].append (dict (k = 'a', n = int (rng.integers (3, 9)), radius = float (lam * rng.uniform (0.03, 0.1)), a1 = float (np.round (rng.uniform (0, 90), 2))
                                       , a2 = float (np.round (rng.uniform (120, 300), 2)), r = float (lam * 1e-3), tag = None, far = True))
+            # a negative start angle in half of the arcs (round 10: the writer "normalised" it; own generator, the main stream is not disturbed)
+            if np.random.default_rng ([c ['seed'], 159, c ['i']]).random () < 0.5 and spec ['geo'][-1]['a2'] + spec ['geo'][-1]['a1'] < 350:
+                spec ['geo'][-1]['a1'] = -spec ['geo'][-1]['a1']
         if rng.random () < 0.25:
             h = dict ( k = 'h', n = int (rng.integers (6, 14)), length = float (lam * rng.uniform (0.05, 0.2) * rng.choice ([1, -1])), turn = float (lam * rng.uniform (0.03, 0.08) * rng.choice ([1, -1]))
                      , r = float (lam * 5e-4), rx1 = float (lam * rng.uniform (0.01, 0.03)), ry1 = float (lam * rng.uniform (0.01, 0.03)), tag = None, far = True)
